@@ -1,4 +1,4 @@
 From Coq Require Import ZArith List.
 From FT Require Import Base.Dict Model.Edit Model.EditExec Model.Toggle Model.ToggleExec Model.EditCtor.
 Require Extraction. Require Import ExtrOcamlBasic.
-Extraction "Extract/model_Edit.ml" mk_state step step2 construct_any.
+Extraction "Extract/model_Edit.ml" mk_state step step2 construct_any construct_dict.
